@@ -88,13 +88,14 @@ Lemma digits_no_comma ds v : number ds v -> no_byte comma ds.
 Proof. intros H. apply number_all_digits in H. eapply Forall_impl; [|eassumption]. apply digit_not_comma. Qed.
 
 (* ---- range expansion ---------------------------------------------------------------------- *)
-Lemma count_up_map k : forall a, count_up a k = map (fun i => a + N.of_nat i) (seq 0 (S k)).
+Lemma count_up_map k : forall a, count_up a k = map (N.add a) (count_up 0 k).
 Proof.
   induction k as [|k IH]; intros a.
   - simpl. now rewrite N.add_0_r.
-  - change (count_up a (S k)) with (a :: count_up (a + 1) k). rewrite IH.
-    change (seq 0 (S (S k))) with (0%nat :: seq 1 (S k)). rewrite <- seq_shift, map_cons, map_map.
-    f_equal; [simpl; lia|]. apply map_ext. intros i. lia.
+  - change (count_up a (S k)) with (a :: count_up (a + 1) k).
+    change (count_up 0 (S k)) with (0 :: count_up (0 + 1) k).
+    rewrite (IH (a + 1)), (IH (0 + 1)), map_cons, map_map, N.add_0_r. f_equal.
+    apply map_ext. intros i. lia.
 Qed.
 
 Lemma expand_range_spec a b : expand_range a b = cpu_range a b.
@@ -270,12 +271,18 @@ Proof.
 Qed.
 
 (* the expansion lists exactly the CPUs n..m, in increasing order *)
-Lemma cpu_range_In n m c : n <= m -> (In c (cpu_range n m) <-> n <= c <= m).
+Lemma count_up_In k : forall a c, In c (count_up a k) <-> a <= c <= a + N.of_nat k.
 Proof.
-  intros Hle. unfold cpu_range. rewrite in_map_iff. split.
-  - intros [i [<- Hi]]. apply in_seq in Hi. lia.
-  - intros Hc. exists (N.to_nat (c - n)). split; [lia|]. apply in_seq. lia.
+  induction k as [|k IH]; intros a c.
+  - simpl. lia.
+  - change (count_up a (S k)) with (a :: count_up (a + 1) k). cbn [In]. rewrite IH. lia.
 Qed.
 
+Lemma count_up_length k : forall a, length (count_up a k) = S k.
+Proof. induction k as [|k IH]; intros a; [reflexivity|]. change (count_up a (S k)) with (a :: count_up (a + 1) k). cbn [length]. now rewrite IH. Qed.
+
+Lemma cpu_range_In n m c : n <= m -> (In c (cpu_range n m) <-> n <= c <= m).
+Proof. intros Hle. rewrite <- expand_range_spec. unfold expand_range. rewrite count_up_In. lia. Qed.
+
 Lemma cpu_range_length n m : length (cpu_range n m) = S (N.to_nat (m - n)).
-Proof. unfold cpu_range. now rewrite map_length, seq_length. Qed.
+Proof. rewrite <- expand_range_spec. apply count_up_length. Qed.
